@@ -161,7 +161,7 @@ def property_assumptions(pid):
     return rc == 0, thms, by_name, cmd, out
 
 
-def shard_run(exe, family, lines, timeout=3000, env=None, group=None):
+def shard_run(exe, family, lines, timeout=3000, env=None, group=None, shards_out=None):
     """run `exe family` over the case lines in parallel shards; returns {id: observation}.
     group(line) -> key keeps lines with one key in one shard (lets a driver cache per-key work)"""
     if not lines:
@@ -186,6 +186,8 @@ def shard_run(exe, family, lines, timeout=3000, env=None, group=None):
         return p.returncode, p.stdout.decode("utf-8", "replace"), p.stderr.decode("utf-8", "replace")
 
     res = {}
+    if shards_out is not None:
+        shards_out.extend(shards)
     with ThreadPoolExecutor(max_workers=n) as ex:
         for (rc, out, err), sl in zip(ex.map(one, shards), shards):
             for l in out.splitlines():
@@ -368,7 +370,8 @@ def run_correspondence(res, family, cases, prop, corr_name=None):
         seen_ids.add(c["id"])
     lines = ["%s %s" % (c["id"], c["line"]) for c in cases]
     grp = getattr(prop, "shard_group", None)
-    go = shard_run(os.path.join(BUILD, "hcdrv"), family, lines)
+    go_shards = []
+    go = shard_run(os.path.join(BUILD, "hcdrv"), family, lines, shards_out=go_shards)
     mo = shard_run(os.path.join(BUILD, "modelrun"), family, lines, group=grp)
     known = {k["key"]: k for k in load_known() if k.get("property") == res.pid and k.get("state") == "known"}
     # Full-stack runs go over real sockets with deadlines: a case that fails is run again (alone, twice); only a
@@ -379,13 +382,21 @@ def run_correspondence(res, family, cases, prop, corr_name=None):
             g, m = go.get(c["id"], "NO-OUTPUT"), mo.get(c["id"], "NO-OUTPUT")
             agree = prop.same(c, g, m) if hasattr(prop, "same") else (g == m)
             return (not agree) or bool(prop.oracle(c, g))
-        suspects = [c for c in cases if bad(c)]
+        suspects = [c for c in cases if bad(c) and not c.get("noretry")]
         flaky = 0
+        # A suspect is re-run IN THE CONTEXT IT FAILED IN: the whole shard (one driver process, same order) is run
+        # again, so that a failure caused by state left behind by an earlier case of the same process repeats.
+        # It counts as intermittent only if it passes in that context.
         for c in suspects[:40]:
+            ctx = next((sl for sl in go_shards if any(l.split(" ", 1)[0] == c["id"] for l in sl)), ["%s %s" % (c["id"], c["line"])])
+            k = next(i for i, l in enumerate(ctx) if l.split(" ", 1)[0] == c["id"])
+            ctx = ctx[:k + 1]
             for _ in range(retry):
-                again = shard_run(os.path.join(BUILD, "hcdrv"), family, ["%s %s" % (c["id"], c["line"])])
+                again = shard_run(os.path.join(BUILD, "hcdrv"), family, ["R%d_%s" % (j, l) for j, l in enumerate(ctx)], group=lambda l: "one-process")
                 old = go[c["id"]]
-                go[c["id"]] = again.get(c["id"], "NO-OUTPUT")
+                go[c["id"]] = again.get("R%d_%s" % (k, c["id"]), "NO-OUTPUT")
+                if k > 0:
+                    c["context"] = [l.split(" ", 1)[1] for l in ctx[:k]]
                 if not bad(c):
                     flaky += 1
                     res.extra.setdefault("flaky_cases", []).append({"case": c["line"][-400:], "first_observation": old[:300]})
@@ -421,6 +432,7 @@ def run_correspondence(res, family, cases, prop, corr_name=None):
                     "property": res.pid, "family": family, "seed": res.seed, "case": c["line"],
                     "implementation_observed": g, "model_predicted": m, "required": why,
                     "meta": c.get("meta"), "stream": c.get("stream"),
+                    "context_cases_run_before_in_the_same_driver_process": c.get("context"),
                     "failing_input_found": True,
                     "replay": "python3 tools/check.py %s --replay <this file>" % res.pid}))
     res.extra["disagreements"] = res.extra.get("disagreements", 0) + disagreements
